@@ -1057,7 +1057,7 @@ impl ConnectBuilder {
         let connect_flags = connect_flags_buf[0];
         let keep_alive_buf = self.keep_alive_buf.unwrap_or([0, 0]);
         let props = self.props.unwrap_or_else(Properties::new);
-        let property_length = VariableByteInteger::from_u32(props.size() as u32).unwrap();
+        let property_length = VariableByteInteger::from_len(props.size())?;
 
         let client_id_buf = self.client_id_buf.unwrap_or_default();
 
@@ -1069,7 +1069,7 @@ impl ConnectBuilder {
         } else {
             Properties::new()
         };
-        let will_property_length = VariableByteInteger::from_u32(will_props.size() as u32).unwrap();
+        let will_property_length = VariableByteInteger::from_len(will_props.size())?;
         let will_topic_buf = self.will_topic_buf.unwrap_or_default();
         let will_payload_buf = self.will_payload_buf.unwrap_or_default();
 
@@ -1099,7 +1099,7 @@ impl ConnectBuilder {
             remaining += password_buf.size(); // password
         }
 
-        let remaining_length = VariableByteInteger::from_u32(remaining as u32).unwrap();
+        let remaining_length = VariableByteInteger::from_len(remaining)?;
 
         Ok(Connect {
             fixed_header: [FixedHeader::Connect as u8],
